@@ -305,6 +305,79 @@ def handshake_faults(ctx, lc):
                 ctx.disagree("hsFault", case, got, want)
 
 
+def handshake_alerts(ctx, lc):
+    """the peer answers in the middle of a handshake with an alert instead of its k-th message: the
+    receiving endpoint must surface it, be closed, hold no resumable session and not complete"""
+    from harness import lab
+    from tlslite.messages import Alert
+    model_lines, model_expect = [], []
+    for name, ver, opt in FLAVOURS:
+        if name in ("tls12-dhe", "tls13-ecdsa", "tls11-rsa") and not ctx.thorough():
+            continue
+        fl = Flavour(name, ver, opt)
+        for who in ("client", "server"):
+            j = 0
+            while j < 12:
+                for level, desc in ((2, 40), (1, 90), (2, 0)):
+                    session = fl.original_session() if opt.get("resume") else None
+                    cs, ss = fl.settings()
+                    ckw, skw = {}, {}
+                    if opt.get("client_cert"):
+                        ch, k = lab.creds("client_rsa")
+                        ckw = dict(certChain=ch, privateKey=k)
+                        skw = dict(reqCert=True)
+                    if opt.get("resume") == "id":
+                        skw["sessionCache"] = fl.cache
+                    if session is not None:
+                        ckw["session"] = session
+                    L = lab.Lab()
+                    st = {"n": 0, "hit": None}
+
+                    def fn(kind, msg, st=st, j=j, level=level, desc=desc):
+                        if type(msg).__name__ == "Message":
+                            return [msg]
+                        i = st["n"]
+                        st["n"] += 1
+                        if i == j and kind == "send":
+                            st["hit"] = lab.msg_name(msg)
+                            return [Alert().create(desc, level)]
+                        return [msg]
+                    lab.hook_messages(L.end(who).conn, fn)
+                    chain, key = lab.creds(opt.get("cred", "rsa"))
+                    L.start_client(lambda c: c.handshakeClientCert(settings=cs, async_=True, **ckw))
+                    L.start_server(lambda c: c.handshakeServerAsync(certChain=chain, privateKey=key, settings=ss, **skw))
+                    L.run()
+                    if st["hit"] is None:
+                        continue
+                    recv = L.end("server" if who == "client" else "client")
+                    d = end_desc(lab, recv)
+                    case = {"stage": "handshake-alert", "flavour": fl.name, "sender": who, "message_index": j,
+                            "replaced": st["hit"], "level": level, "desc": desc, "outcome": d}
+                    ctx.case(key=("hs-alert-msg", fl.name, who, j, level, desc), sample=case if (j == 2 and level == 2 and desc == 40) else None)
+                    ctx.count("hs-alert:%d-%d" % (level, desc))
+                    bad = d["state"] != "error" or d["exc"] != "remote_alert:%d" % desc or not d["closed"]
+                    if desc != 0 and d["session"]:
+                        bad = True
+                    if bad:
+                        ctx.violation("c17:handshake-alert-not-contained",
+                                      "%s: %s replaced its message %d (%s) by alert (%d,%d); receiver: %r" % (fl.name, who, j, st["hit"], level, desc, d), case)
+                    if d["session"] is not None:
+                        model_lines.append("hsalert %d %d" % (level, desc))
+                        model_expect.append((case, "%s closed=%d res=%d complete=%d" % (
+                            d["exc"] if d["state"] == "error" else "none", d["closed"], int(d["session"]), int(d["state"] == "done"))))
+                    if session is not None and session.resumable and desc != 0:
+                        ctx.count("observation:offered-session-still-resumable-after-fatal-alert-in-resumption")
+                j += 1
+                if st["n"] <= j:
+                    break
+    if lc is not None and model_lines:
+        out = lc.batch(model_lines)
+        for (case, want), got in zip(model_expect, out):
+            ctx.compared()
+            if got != want:
+                ctx.disagree("hsAlert", case, got, want)
+
+
 # ------------------------------------------------------------------------------------------------
 # Part B: data phase
 def rb(rng, n):
@@ -591,6 +664,7 @@ def run(ctx):
     rng = ctx.rng
     keyed_cases(ctx, lc)
     handshake_faults(ctx, lc)
+    handshake_alerts(ctx, lc)
     cfgs = list(data_cfgs(rng, ctx.pick(3, 8)))
     # closeSocket x ignoreAbruptClose exhaustively on one TLS 1.3 and one TLS 1.2 configuration
     for ver in ((3, 4), (3, 3)):
@@ -641,6 +715,11 @@ def replay(ctx, rep):
                     return dx["exc"] != "remote_alert:%d" % inp["alert"] or not dx["closed"]
         print("unknown flavour", inp.get("flavour"))
         return True
+    if st == "handshake-alert":
+        handshake_alerts(ctx, lc)
+        for v in ctx.violations:
+            print("oracle:", v["key"], v["what"])
+        return bool(ctx.violations or ctx.disagreements)
     if "ops" in inp:
         cfg = cfg_unjson(inp["cfg"])
         ops = [op_unjson(o) for o in inp["ops"]]
